@@ -822,6 +822,8 @@ class Lib:
     def call_method(self, ref, v, method, args, node):
         I = self.I
         MODELLED_CALLS.add('.' + method)
+        if isinstance(v, Opaque) and v.tag == 'Match' and method == 'as_str':
+            return v.get('s')
         # generic, type independent ---------------------------------
         if method in ('clone', 'to_owned', 'cloned', 'borrow', 'as_ref', 'as_mut', 'to_vec', 'as_path', 'as_str', 'as_slice', 'to_path_buf',
                       'into_boxed_str', 'as_os_str', 'to_os_string', 'into_os_string', 'deref', 'by_ref', 'copied') and not (
